@@ -15,7 +15,7 @@ from itertools import zip_longest
 import pymbolic.primitives as pmbl
 from pymbolic.mapper import Mapper, WalkMapper, CombineMapper, IdentityMapper
 from pymbolic.mapper.stringifier import (
-    StringifyMapper, PREC_NONE, PREC_SUM, PREC_CALL, PREC_PRODUCT
+    StringifyMapper, PREC_NONE, PREC_SUM, PREC_CALL, PREC_PRODUCT, PREC_POWER
 )
 try:
     from fparser.two.Fortran2003 import Intrinsic_Name
@@ -56,6 +56,17 @@ class LokiStringifyMapper(StringifyMapper):
             op.ParenthesisedAdd, op.ParenthesisedMul,
             op.ParenthesisedDiv, op.ParenthesisedPow
         )
+
+    @staticmethod
+    def protect_sign(expr, string):
+        """
+        Wrap the string of a signed operand in parentheses, such that it can follow another operator
+
+        Literals are exempt, their representation is left to the literal mapping of each backend.
+        """
+        if string.startswith('-') and not getattr(expr, 'mapper_method', '').endswith('_literal'):
+            return f'({string})'
+        return string
 
     def rec_with_force_parens_around(self, expr, *args, **kwargs):
         # Re-implement here to add no_force_parens_around
@@ -143,7 +154,11 @@ class LokiStringifyMapper(StringifyMapper):
         terms = []
         for ch in expr.children:
             op, prec, expr = get_op_prec_expr(ch)
-            terms += [op, self.rec(expr, prec, *args, **kwargs)]
+            term = self.rec(expr, prec, *args, **kwargs)
+            if terms or op == '-':
+                # A signed operand must not directly follow another operator
+                term = self.protect_sign(expr, term)
+            terms += [op, term]
 
         # Remove leading '+'
         if terms[0] == '-':
@@ -156,26 +171,58 @@ class LokiStringifyMapper(StringifyMapper):
         if len(expr.children) == 2 and expr.children[0] == -1:
             # Negative values are encoded as multiplication by (-1) (constant, not IntLiteral).
             # We replace this by a minus again
-            return self.parenthesize_if_needed(
-                f'-{self.join_rec("*", expr.children[1:], PREC_PRODUCT, *args, **kwargs)}',
-                enclosing_prec, PREC_PRODUCT)
+            operand = self.join_rec("*", expr.children[1:], PREC_PRODUCT, *args, **kwargs)
+            operand = self.protect_sign(expr.children[1], operand)
+            return self.parenthesize_if_needed(f'-{operand}', enclosing_prec, PREC_PRODUCT)
         # Make Pymbolic's default bracketing less conservative by not enforcing
         # parenthesis around products nested in a product, which can cause
         # round-off deviations for agressively optimising compilers
         kwargs['force_parens_around'] = (pmbl.FloorDiv, pmbl.Remainder)
-        return self.parenthesize_if_needed(
-                self.join_rec("*", expr.children, PREC_PRODUCT, *args, **kwargs),
-                enclosing_prec, PREC_PRODUCT)
+        factors = []
+        for ch in expr.children:
+            factor = self.rec_with_force_parens_around(ch, PREC_PRODUCT, *args, **kwargs)
+            if factors and self._has_leading_division(ch):
+                # Keep the grouping of quotients that are not the first factor: a*(b / c) is not (a*b) / c
+                factor = f'({factor})'
+            elif factors:
+                factor = self.protect_sign(ch, factor)
+            factors.append(factor)
+        return self.parenthesize_if_needed(self.join('*', factors), enclosing_prec, PREC_PRODUCT)
+
+    def _has_leading_division(self, expr):
+        """
+        Check if the un-parenthesised string of :data:`expr` would start with a division
+        """
+        if isinstance(expr, self.parenthesised_multiplicative_primitives):
+            return False
+        if isinstance(expr, pmbl.Quotient):
+            return True
+        if isinstance(expr, pmbl.Product) and expr.children:
+            return self._has_leading_division(expr.children[0])
+        return False
 
     def map_quotient(self, expr, enclosing_prec, *args, **kwargs):
         # Similar to products we drop the conservative parenthesis around products and
         # quotients for the numerator
         kwargs['force_parens_around'] = (pmbl.FloorDiv, pmbl.Remainder)
         numerator = self.rec_with_force_parens_around(expr.numerator, PREC_PRODUCT, *args, **kwargs)
-        kwargs['force_parens_around'] = self.multiplicative_primitives
+        # The denominator needs to retain its grouping: a / (b*c) is not (a / b)*c
+        kwargs['force_parens_around'] = (pmbl.Product, pmbl.Quotient, pmbl.FloorDiv, pmbl.Remainder)
         denominator = self.rec_with_force_parens_around(expr.denominator, PREC_PRODUCT, *args, **kwargs)
+        denominator = self.protect_sign(expr.denominator, denominator)
         return self.parenthesize_if_needed(self.format('%s / %s', numerator, denominator),
                                            enclosing_prec, PREC_PRODUCT)
+
+    def map_power(self, expr, enclosing_prec, *args, **kwargs):
+        base = self.rec(expr.base, PREC_POWER, *args, **kwargs)
+        if isinstance(expr.base, pmbl.Power) and \
+                not isinstance(expr.base, self.parenthesised_multiplicative_primitives):
+            # Exponentiation is right-associative
+            base = f'({base})'
+        else:
+            base = self.protect_sign(expr.base, base)
+        exponent = self.protect_sign(expr.exponent, self.rec(expr.exponent, PREC_POWER, *args, **kwargs))
+        return self.parenthesize_if_needed(self.format('%s**%s', base, exponent), enclosing_prec, PREC_POWER)
 
     def map_parenthesised_add(self, expr, enclosing_prec, *args, **kwargs):
         return self.parenthesize(self.map_sum(expr, PREC_NONE, *args, **kwargs))
